@@ -27,12 +27,12 @@ META = {
             "(self-intersecting stars, coincident/collinear edges, near-concurrent pencils, clockwise contours, both fill rules, >1024-edge combs through the BVH broad phase, "
             "programs of Booleans/transforms/warps): regular_check + formula_check with ~200 samples per CrossSection.",
     "note": "Not proved: that the sweep finds every crossing / keeps the status order, vertex merge, incidence pre-split (decided per output by the checker; coverage = generator reach). "
-            "Samples closer than 4*eps (eps = InferEps of the operation) to an input edge are excluded: vertex merge, pre-split and crossing construction each move the boundary by up to one eps. "
+            "Samples closer than 2*eps (eps = InferEps of the operation) to an input edge are excluded: vertex merge, pre-split and crossing construction each move the boundary by up to one eps. "
             "Trusted: Coq kernel, extraction, the Python scaling of doubles to integers (exact, power-of-two), the C++ harness printing bit patterns.",
 }
 
 OPS = {0: "Add", 1: "Subtract", 2: "Intersect"}
-EPS_MULT = 4
+EPS_MULT = 2
 
 
 # ----------------------------------------------------------------- numbers
@@ -99,6 +99,39 @@ class Prog:
             elif k == "W":
                 out.append("W %d %d %s %s" % (st[1], st[2], f2hexfloat(st[3]), f2hexfloat(st[4])))
         return " ; ".join(out)
+
+    def deps(self, k):
+        st = self.stmts[k]
+        if st[0] == "B":
+            return [st[2], st[3]]
+        if st[0] == "BB":
+            return list(st[2])
+        if st[0] in ("TR", "RO", "SC", "MI", "TF", "W"):
+            return [st[1]]
+        return []
+
+    def slice(self, k):
+        """the sub-program register k depends on (registers renumbered); returns (Prog, new index of k)"""
+        need, todo = set(), [k]
+        while todo:
+            x = todo.pop()
+            if x not in need:
+                need.add(x)
+                todo += self.deps(x)
+        order = sorted(need)
+        ren = {old: new for new, old in enumerate(order)}
+        q = Prog(self.tag, self.regime)
+        for old in order:
+            st = self.stmts[old]
+            if st[0] == "B":
+                q.add("B", st[1], ren[st[2]], ren[st[3]])
+            elif st[0] == "BB":
+                q.add("BB", st[1], [ren[r] for r in st[2]])
+            elif st[0] in ("TR", "RO", "SC", "MI", "TF", "W"):
+                q.add(st[0], ren[st[1]], *st[2:])
+            else:
+                q.add(*st)
+        return q, ren[k]
 
     def replay(self):
         return {"tag": self.tag, "regime": self.regime, "program": self.text(), "statements": [repr(st)[:600] for st in self.stmts],
@@ -233,8 +266,8 @@ def gen_generic(rng, cx):
     progs = []
     N = cx.pick(70, 900)
     for t in range(N):
-        fam = t % 7
-        p = Prog(["stars", "coincident", "pencil", "clockwise", "program", "warp", "evenodd"][fam], "generic")
+        fam = t % 9
+        p = Prog(["stars", "coincident", "pencil", "clockwise", "program", "warp", "evenodd", "gridrandom", "nearcopy"][fam], "generic")
         bits = rng.choice([6, 10, 10, 30, 52])
         if fam == 0:     # self-intersecting stars, both fills, Boolean of two
             n = rng.choice([5, 7, 8, 9, 11, 12])
@@ -322,6 +355,28 @@ def gen_generic(rng, cx):
             p1 = {0: rng.uniform(-0.5, 0.5), 1: q(rng.uniform(-1, 1), 3), 2: rng.uniform(0.2, 1.2), 3: rng.uniform(0.2, 1.5), 4: rng.choice([0.5, 1.0, 0.25])}[kind]
             w = p.add("W", u, kind, p1, rng.uniform(1, 4))
             p.add("B", 2, w, a)
+        elif fam == 7:   # random closed polylines on a tiny integer grid: exact coincidences, T-junctions, collinear overlaps, repeated vertices
+            G = rng.choice([3, 4, 6])
+            def rp():
+                n = rng.randint(3, 14)
+                c = [(float(rng.randint(0, G)), float(rng.randint(0, G))) for _ in range(n)]
+                return c
+            a = p.add("P", rng.randint(0, 1), [rp() for _ in range(rng.randint(1, 3))])
+            b = p.add("P", rng.randint(0, 1), [rp()])
+            for op in (0, 1, 2):
+                p.add("B", op, a, b)
+            p.add("BB", rng.randint(0, 2), [a, b, a])
+        elif fam == 8:   # a shape against a copy of itself moved by far less / about / more than eps
+            s0 = star(rng, rng.choice([5, 8, 12]), rng.choice([1, 2]), rng.uniform(1, 4), (rng.uniform(-2, 2), rng.uniform(-2, 2)), bits)
+            d = rng.choice([1e-16, 1e-14, 3e-13, 1e-12, 1e-10, 1e-7])
+            th = rng.choice([0.0, 1e-15, 1e-12, 1e-9])
+            s1 = [(x * math.cos(th) - y * math.sin(th) + d, x * math.sin(th) + y * math.cos(th) - d * rng.choice([0, 1, -1])) for x, y in s0]
+            a = p.add("P", 0, [s0])
+            b = p.add("P", 0, [s1])
+            c = p.add("P", rng.randint(0, 1), [s0, s1[::-1] if rng.random() < 0.5 else s1])
+            for op in (0, 1, 2):
+                p.add("B", op, a, b)
+            p.add("B", rng.randint(0, 2), c, a)
         else:            # even-odd / positive of overlapping copies
             s1 = star(rng, 7, 2, 3.0, (0.0, 0.0), bits)
             s2 = [(x + 0.5, y) for x, y in s1]
@@ -329,6 +384,18 @@ def gen_generic(rng, cx):
             b = p.add("P", 0, [s1, s2[::-1]])
             p.add("B", 0, a, b)
             p.add("B", 2, a, b)
+        progs.append(p)
+    # singular transforms (zero scale, rank-1 matrix): the result must still be a regular CrossSection (empty)
+    for t in range(2):
+        p = Prog("singular", "generic")
+        a = p.add("R", 0.0, 0.0, 2.0, 2.0)
+        b = p.add("P", 0, [star(rng, 7, 2, 2.0, (0.5, 0.5), 8)])
+        if t == 0:
+            p.add("SC", a, 1.0, 0.0)
+            p.add("SC", b, 0.0, 0.0)
+        else:
+            p.add("TF", a, 1.0, 2.0, 2.0, 4.0, 0.5, 0.25)
+            p.add("SC", b, 0.0, 3.0)
         progs.append(p)
     # > 1024-edge combs: BVH broad phase
     for t in range(cx.pick(2, 10)):
@@ -531,6 +598,13 @@ def run_driver(drv, lines, nproc):
 
 
 def judge(cx, progs, res, drv, rng, label, stats):
+    found = []          # (size, key, description, replay): emitted smallest program first
+
+    class _V:
+        @staticmethod
+        def violation(key, desc, rep):
+            found.append((len(rep.get("program", "")) if isinstance(rep, dict) else 10 ** 9, key, desc, rep))
+    real_cx, vx = cx, _V
     jobs, metas = [], {}
     for cid, prog in enumerate(progs):
         regs = res.get(cid)
@@ -574,22 +648,27 @@ def judge(cx, progs, res, drv, rng, label, stats):
         regs[k]["wsum"] = wsum
         if kind in ("boolean", "batch", "fill", "warp") and len(regs[k]["polys"]) > 0:
             stats["nontrivial"] += 1
-        rep = dict(prog.replay(), register=k, statement=" ".join(map(str, _flat(prog.stmts[k])))[:400],
+        sl, newk = prog.slice(k)
+        rep = dict(sl.replay(), register=newk, statement=" ".join(map(str, _flat(prog.stmts[k])))[:400],
                    output_contours=[[(x.hex(), y.hex()) for x, y in c] for c in regs[k]["polys"]][:40], scale=meta["scale"], E=meta["E"])
         pre = "lattice-" if meta["lattice"] else ""
+        if prog.tag == "singular" and kind == "transform" and not regular:
+            vx.violation("singular-transform-not-regularized", "register %d: a CrossSection transformed by a singular matrix (%s) keeps degenerate contours "
+                         "(repeated vertices / overlapping edges, NumContour=%d) instead of becoming empty" % (k, " ".join(map(str, _flat(prog.stmts[k]))), len(regs[k]["polys"])), rep)
+            continue
         if not simple:
-            cx.violation(pre + "output-contour-not-simple", "%s: a contour of register %d (%s) has < 3 or repeated vertices" % (prog.tag, k, kind), rep)
+            vx.violation(pre + "output-contour-not-simple", "%s: a contour of register %d (%s) has < 3 or repeated vertices" % (prog.tag, k, kind), rep)
         if not noconf:
             key = "transform-output-edges-cross" if kind == "transform" else pre + "output-edges-cross-or-overlap"
-            cx.violation(key, "%s: two edges of register %d (%s) cross, overlap or touch away from common endpoints (exact test)" % (prog.tag, k, kind), rep)
+            vx.violation(key, "%s: two edges of register %d (%s) cross, overlap or touch away from common endpoints (exact test)" % (prog.tag, k, kind), rep)
         if not w01:
             p = meta["pts"][badw] if 0 <= badw < len(meta["pts"]) else None
-            cx.violation(pre + "winding-not-0-or-1", "%s: register %d (%s) has winding number outside {0,1} at sample %s (scaled by %d)" % (prog.tag, k, kind, p, meta["scale"]),
+            vx.violation(pre + "winding-not-0-or-1", "%s: register %d (%s) has winding number outside {0,1} at sample %s (scaled by %d)" % (prog.tag, k, kind, p, meta["scale"]),
                          dict(rep, sample=p))
         if not formula:
             p = meta["pts"][badf] if 0 <= badf < len(meta["pts"]) else None
             key = ("lattice-pixelset-differs-" if meta["lattice"] else "formula-differs-") + kind
-            cx.violation(key, "%s: register %d (%s): result winding differs from the set formula of the operands at sample %s (scaled by %d, exclusion radius %d)"
+            vx.violation(key, "%s: register %d (%s): result winding differs from the set formula of the operands at sample %s (scaled by %d, exclusion radius %d)"
                          % (prog.tag, k, kind, p, meta["scale"], meta["E"]), dict(rep, sample=p))
         if meta["lattice"] and meta["has_formula"]:
             if nfar != meta["npts"]:
@@ -599,9 +678,9 @@ def judge(cx, progs, res, drv, rng, label, stats):
                 count = wsum
                 ab = regs[k]["area"]
                 if struct.pack("<d", ab) != struct.pack("<d", float(count)) and not (ab == 0.0 and count == 0):
-                    cx.violation("lattice-area-not-pixelcount", "%s: register %d Area()=%r but the result covers %d pixels" % (prog.tag, k, ab, count), rep)
+                    vx.violation("lattice-area-not-pixelcount", "%s: register %d Area()=%r but the result covers %d pixels" % (prog.tag, k, ab, count), rep)
                 if a2 != 2 * count * meta["scale"] ** 2:
-                    cx.violation("lattice-shoelace-not-pixelcount", "%s: register %d exact shoelace area2=%d (scale %d) but %d pixels" % (prog.tag, k, a2, meta["scale"], count), rep)
+                    vx.violation("lattice-shoelace-not-pixelcount", "%s: register %d exact shoelace area2=%d (scale %d) but %d pixels" % (prog.tag, k, a2, meta["scale"], count), rep)
                 stats["lattice_exact"] += 1
                 if 0 < count:
                     stats["lattice_nontrivial"] += 1
@@ -617,11 +696,14 @@ def judge(cx, progs, res, drv, rng, label, stats):
                 if key in seen and (st[2], st[3]) != seen[key][1]:
                     k0 = seen[key][0]
                     if regs[k0].get("wsum") != regs[k].get("wsum") or regs[k0]["area_bits"] != regs[k]["area_bits"]:
-                        cx.violation("lattice-order-dependent", "%s: registers %d and %d (%s with swapped operands) differ in pixel count or Area bits"
+                        vx.violation("lattice-order-dependent", "%s: registers %d and %d (%s with swapped operands) differ in pixel count or Area bits"
                                      % (prog.tag, k0, k, OPS[st[1]]), dict(prog.replay(), registers=[k0, k]))
                     stats["order_pairs"] += 1
                 else:
                     seen[key] = (k, (st[2], st[3]))
+    found.sort(key=lambda t: (t[0], t[1]))
+    for _, key, desc, rep in found:
+        real_cx.violation(key, desc, rep)
 
 
 def kernels(cx, drv, rng):
